@@ -174,4 +174,14 @@ theorem api_shares_nothing_writable :
     (∀ i ∈ Facts.imports, i ≠ "sync" ∧ i ≠ "sync/atomic" ∧ i ≠ "unsafe") := by
   decide
 
+/-- no function stores into an element of a slice it was handed as a parameter (nor into a range
+    variable or local alias of one), nor sorts / reverses / copies over one in place — except three
+    internal helpers that are only ever called with the clipper's own lists (`tidyEdgePair` with
+    `r.edges[…]`, `insertAtIndex` with the scanline list).  So a path passed in by one caller is
+    never written by the library, whoever else is reading it. -/
+theorem inputs_never_written_in_place :
+    Facts.paramWrites = ["RectClip64.tidyEdgePair: store through ccw",
+      "RectClip64.tidyEdgePair: store through cw", "insertAtIndex: store through slice"] := by
+  decide
+
 end C18
